@@ -10,7 +10,7 @@ use serde_json::json;
 
 pub fn cfg_for(sub: &str) -> GenCfg {
     if sub.ends_with("/large") {
-        GenCfg { max_ops1: 24, max_closures: 3, max_ops2: 12, max_commits: 4, big_gates: 130 }
+        GenCfg { max_ops1: 30, max_closures: 6, max_ops2: 12, max_commits: 14, big_gates: 130, max_terms: 12 }
     } else {
         GenCfg::small()
     }
